@@ -197,6 +197,7 @@ theorem server_replay_rejected {a : AEAD} (hl : a.Laws) {g : GNc} (h : GReach a 
   untouched), so that `C04.payload_at_most_once` applies.  `ex_run` in `SrcPropsNcHistory.lean` shows the behaviour on the
   concrete generated run (the replayed payload datagram yields `None`), and `server_replay_rejected` above is the per-call
   statement after any generated run.
+  DONE LATER (round 20): Props/C04H.lean (model trace theorem) and Props/SrcPropsNcPayloadOnce.lean (generated runs).
 -/
 
 end RenetVerif.SrcPropsNcHistory
